@@ -11,12 +11,12 @@
   (thread, item), the non-`ok` results of that item's operations, in canonical order, joined by `;`.
 
   script (identical in harness/src/ops_conc.rs):
-    items 0..10 = groestl 224|256|384|512, blake 256|512, jh 256, skein 512-64,
-                  chacha chacha20|ietf|xchacha20;   sd = seed + tid;
-    order = items rotated to start at (6·tid) mod 11  (thread 0 starts with Grøstl, thread 1 with JH, …)
-    phase A (one-shot, slot = item):     new; updpat/seek+applypat; fin          → result item `it`
+    items 0..14 = groestl 224|256|384|512, blake 256|512, jh 256, skein 512-64|512-32|512-256,
+                  chacha chacha20|chacha8|chacha12|ietf|xchacha20;   sd = seed + tid;
+    order = items rotated to start at (7·tid) mod 15  (thread 0 starts with Grøstl, thread 1 with Skein, …)
+    phase A (one-shot, slot = item):     new; updpat|seek+applypat (ciphers: 320 bytes more, so the 4-block bulk path runs); fin          → result item `it`
     phase B (round-robin, slot = 100+item): new all (ciphers: + seek); `rounds` times: one piece to
-            every instance in turn; then fin (ciphers: pos) all                      → result item `11+it`
+            every instance in turn; then fin (ciphers: pos) all                      → result item `15+it`
 -/
 import CC.Drv.Common
 import CC.Drv.ChaCha
@@ -27,15 +27,17 @@ import CC.Drv.Skein
 namespace CC.Drv.Conc
 open CC CC.Drv
 
-/-- (family, variant, nonce length) of the eleven items. -/
+/-- (family, variant, nonce length) of the fifteen items. -/
 def items : List (String × String × Nat) :=
   [("groestl", "224", 0), ("groestl", "256", 0), ("groestl", "384", 0), ("groestl", "512", 0),
    ("blake", "256", 0), ("blake", "512", 0), ("jh", "256", 0), ("skein", "512-64", 0),
-   ("chacha", "chacha20", 8), ("chacha", "ietf", 12), ("chacha", "xchacha20", 24)]
+   ("skein", "512-32", 0), ("skein", "512-256", 0),
+   ("chacha", "chacha20", 8), ("chacha", "chacha8", 8), ("chacha", "chacha12", 8),
+   ("chacha", "ietf", 12), ("chacha", "xchacha20", 24)]
 
-def nItems : Nat := 11
+def nItems : Nat := 15
 
-def order (tid : Nat) : List Nat := (List.range nItems).map fun j => (6 * tid + j) % nItems
+def order (tid : Nat) : List Nat := (List.range nItems).map fun j => (7 * tid + j) % nItems
 
 def lenA (seed tid it : Nat) : Nat := (seed * 7 + tid * 13 + it * 29) % 97
 def offA (seed tid it : Nat) : Nat := (seed * 3 + tid * 17 + it * 5) % 200
@@ -61,7 +63,7 @@ def script (tid seed rounds : Nat) : List (Nat × List String) :=
     if isC it then
       [(it, newLine it it sd),
        (it, ["chacha", "seek", slot, "u64", toString (offA seed tid it)]),
-       (it, ["chacha", "applypat", slot, toString (lenA seed tid it), toString sd])]
+       (it, ["chacha", "applypat", slot, toString (320 + lenA seed tid it), toString sd])]
     else
       [(it, newLine it it sd),
        (it, [fam, "updpat", slot, toString (lenA seed tid it), toString sd]),
